@@ -476,7 +476,7 @@ class FuncGen:
                 ev = self.new('exc')
                 self.emit('except %s as %s:' % (exc, ev))
                 self.ind += 1
-                self.emit('log((type(%s).__name__, %s.args))' % (ev, ev))
+                self.emit('log((type(%s).__name__, len(%s.args)))' % (ev, ev))   # message wording is compared only when it propagates
                 self.ind -= 1
             else:
                 self.emit('except %s:' % exc)
